@@ -8,6 +8,7 @@ import (
 	"time"
 
 	"github.com/miekg/dns"
+	"github.com/semihalev/sdns/middleware"
 )
 
 // Accessors for the C04 correspondence driver (no behaviour change).
@@ -93,4 +94,26 @@ func VerifC04Counters() (fast, chase, cut uint64) {
 func VerifC04ProcessPrefetch(c *Cache, req *dns.Msg, key uint64, entry *CacheEntry) {
 	pq := &PrefetchQueue{ctx: context.Background(), metrics: c.metrics}
 	pq.processPrefetch(PrefetchRequest{Request: req, Key: key, Cache: c, Entry: entry})
+}
+
+// VerifC04Inherit runs the unexported subQueryLineage.inherit for a
+// (parent, child) pair of metas.
+func VerifC04Inherit(parent, child *middleware.ResponseMeta) {
+	l := subQueryLineage{parent: parent, child: child}
+	l.inherit()
+}
+
+// VerifC04HardUntil runs the unexported boundRequestToEntryLifetime on an
+// entry stored at an arbitrary base with the given ttl / optional cut and
+// returns the deadline it folded into a fresh request meta, relative to base.
+func VerifC04HardUntil(ttl time.Duration, hasCut bool, cut time.Duration) time.Duration {
+	base := time.Now()
+	e := &CacheEntry{stored: base, ttl: ttl}
+	if hasCut {
+		e.cutUntil = base.Add(cut)
+	}
+	var meta middleware.ResponseMeta
+	ctx := middleware.WithResponseMeta(context.Background(), &meta)
+	boundRequestToEntryLifetime(ctx, e)
+	return meta.CutUntil().Sub(base)
 }
